@@ -17,7 +17,6 @@ CHECKS = {
  "C03": {"text": "Deductive: the declared EOS relations between the *returned* fields (resolved through the names list of the real ExactSolution call) are proved on every path, every geometry, symbolic parameters.",
          "note": COMMON_NOTE + "Covered so far: Noh, Noh2, Noh2Cog, Coggeshall 1-21; other solver families are being added.",
          "technique": "symbolic execution of real source + EOS-relation VCs discharged by ring normaliser"},
-}
  "C16": {"text": "Deductive: for each EOS class of the library (symbolic constants, symbolic state, every feasible branch pair) the closures are proved mutually inverse and every analytic partial equal to the symbolic derivative of its closure, "
                  "with methods bound positionally in the base-class order; for each of the four residual classes and each symmetry every Jacobian entry equals the derivative of the residual for an abstract EOS (contract only), "
                  "hand-coded 2x2 inverses/determinants are proved, 3x3 inverses are proved to apply numpy.linalg.inv to F_prime at the same state under a det!=0 guard; Newton step and exit condition by a one-iteration step obligation on the real loop body.",
